@@ -127,7 +127,57 @@ def extra_checks(tier, seed):
         out.append(('hierarchical_crash_points', True, detail, {}))
     out.append(async_hier_stream(tier, seed))
     out.append(survivor_stream(tier, seed))
+    out.append(double_raise_stream(tier, seed))
     return out
+
+
+def double_raise_stream(tier, seed):
+    """"an exception raised by a finalize callback never replaces that outcome": a callback of the event raises at
+    position k AND one of the machine's finalize_event callbacks raises whenever it runs - with and without
+    on_exception handlers, on the flat synchronous and asyncio classes (callback lists trimmed to one entry), against
+    the flat Coq engine under that environment (two raising callbacks: outside C04_crash_point's single_raise, so
+    this stream is correspondence only)"""
+    n = 150 if tier == 'quick' else 2500
+    bases = []
+    for i in range(n):
+        rng = random.Random('C04d-%d-%d' % (seed, i))
+        c = flat.trim_flat(flat.gen_case(rng, malformed=False, hist_len=rng.randint(1, 4), p_unknown=0.0))
+        if not c['machine']['finalize']:
+            c['machine']['finalize'] = [970]
+        c['env'] = dict(default=c['env']['default'], bypos={}, bycb={k: (r[0], None, []) for k, r in c['env']['bycb'].items()})
+        bases.append(c)
+    obs = F.run_model(KIND, [enc(c) for c in bases])
+    cases = []
+    for i, (c, o) in enumerate(zip(bases, obs)):
+        if not isinstance(o, list) or o[0] != 1:
+            continue
+        rng = random.Random('C04dx-%d-%d' % (seed, i))
+        items = [it for step in o[1] for it in step[0]]
+        ks = [k for k, it in enumerate(items) if flat.SLOTS[it[0]] != 'finalize']
+        for k in (sorted(rng.sample(ks, 3)) if len(ks) > 3 else ks):
+            cc = copy.deepcopy(c)
+            cc['env']['bypos'][k] = (bool(items[k][6]), flat.pick_exn(k + i), [])
+            fin = cc['machine']['finalize'][0]
+            cc['env']['bycb'][fin] = (True, (3, 9) if (k + i) % 3 else (4, 9), [])
+            if (k + i) % 2:
+                cc['machine']['on_exception'] = []
+            cc['cls'] = ['Machine', 'AsyncMachine', 'LockedMachine', 'AsyncGraphMachine'][(i + k) % 4]
+            cases.append(cc)
+    mo = F.run_model(KIND, [enc(c) for c in cases])
+    sync = [j for j, c in enumerate(cases) if 'Async' not in c['cls']]
+    asy = [j for j, c in enumerate(cases) if 'Async' in c['cls']]
+    io = [None] * len(cases)
+    for idx, fn in ((sync, 'impl_flat'), (asy, 'impl_flat_async')):
+        for j, r in zip(idx, F.run_impl('flat', fn, [cases[j] for j in idx])):
+            io[j] = r
+    bad = [(c, m, i) for c, m, i in zip(cases, mo, io) if m != i]
+    raised = sum(1 for m in mo if isinstance(m, list) and m[0] == 1 and any(st[1][0] == 1 for st in m[1]))
+    detail = dict(cases=len(cases), on_asyncio_classes=len(asy), propagated_to_the_caller=raised, disagreements=len(bad))
+    if bad:
+        c, m, i = bad[0]
+        return ('failing_callback_and_failing_finalize', False, detail,
+                dict(kind='counterexample', stream='a callback raises and a finalize callback raises', case=c, model_obs=m, impl_obs=i))
+    return ('failing_callback_and_failing_finalize', True, detail, {})
 
 
 def async_hier_stream(tier, seed):
